@@ -111,6 +111,11 @@ func genC13(p *Plan, r *RNG) {
 			if r.Chance(1, 4) {
 				o.A.Flags = []string{"ip4"} // the peer's address in the other net.IP form: the same peer
 			}
+			if p.Cfg.Extra["stream"] == 1 && r.Chance(1, 12) {
+				// a payload at or beyond what a STUN or ChannelData length field can say: refused,
+				// or sent whole - never a frame whose length field has wrapped, on a stream
+				o.A.Len = r.PickInt([]int{65400, 65496, 65512, 65520, 65535, 65536, 65546, 70000})
+			}
 			p.Ops = append(p.Ops, o)
 		case w < 45:
 			p.Ops = append(p.Ops, Op{Actor: "app", Kind: "readfrom", At: g})
